@@ -11,7 +11,10 @@
 mod blockprops;
 mod drip;
 mod duts;
+mod eos;
+mod graphs;
 mod hdlc;
+mod runners;
 mod rec;
 mod ring;
 mod util;
@@ -67,6 +70,10 @@ fn main() {
     let rep: Report = match cmd.as_str() {
         "c01" => ring::main(&opts, false),
         "c02" => ring::main(&opts, true),
+        "c04" => eos::main(&opts),
+        "c05" => runners::main(&opts, "C05"),
+        "c06" => runners::main(&opts, "C06"),
+        "c07" => runners::main(&opts, "C07"),
         "c08" => blockprops::main(&opts, blockprops::Mode::C08),
         "c09" => blockprops::main(&opts, blockprops::Mode::C09),
         "c10" => blockprops::main(&opts, blockprops::Mode::C10),
